@@ -8,11 +8,11 @@ import CifModel.Lemmas.Walk
   enumeration order, any per-packet item order) and every handler program (`Prog`: an arbitrary function of the
   invocation index and the event).
 
-  PARTIAL.  The global theorems carry the hypothesis `NoFinished p` (the program never answers the positive code 1 =
-  CIF_FINISHED).  Without it the full statements `C14_refines_spec_full`, `C14_error_propagates_full` are FALSE for the code as
-  it is: walk_loop recognises the end of the packet iteration by `result == CIF_FINISHED`, so a handler answering 1 from
-  packet_start / item / packet_end does not stop the walk (`C14_cex_finished`; open finding F32, found by the
-  correspondence oracle).
+  History.  Before fix d1128e2 walk_loop recognised the end of the packet iteration by `result == CIF_FINISHED` alone,
+  so a handler answering the positive code 1 from packet_start / item / packet_end did not stop the walk (finding F32,
+  found by the correspondence oracle; the global theorems then carried a hypothesis `NoFinished p`).  The model now
+  follows the repaired code (the `stopped` flag) and the theorems hold for every program; `C14_cex_finished_pinned`
+  keeps the counterexample as a statement about the pinned variant `walkLoopPinned`.
 -/
 namespace CifModel
 open Walk Spec.Traversal Lemmas.Walk
@@ -23,21 +23,12 @@ def C14_push (w : W) (e : Ev) : W := { n := w.n + 1, log := e :: w.log }
 def C14_startEv (d : Nat) : WCont → Ev
   | .mk code _ _ => if d = 0 then .blockStart code else .frameStart code
 
-/-- FULL statements (false for the code as it is, see `C14_cex_finished`) -/
-def C14_refines_spec_full : Prop :=
-  ∀ (p : Prog) (c : WCif), noEmptyLoops c = true → walk p c = walkSpec p c
-
-def C14_error_propagates_full : Prop :=
-  ∀ (p : Prog) (c : WCif), noEmptyLoops c = true →
-    ∀ (k : Nat) (h : k < (walk p c).1.length), p k (walk p c).1[k] > 0 →
-      k + 1 = (walk p c).1.length ∧ (walk p c).2 = p k (walk p c).1[k]
-
 /-- **All continue**: on a CIF without packet-less loops, handlers that always continue are shown every block, frame,
     loop, packet and item exactly once, parents before children, frames before loops, start before end (the
     depth-first flattening of the event tree), and cif_walk returns CIF_OK. -/
 theorem C14_all_continue (c : WCif) (hc : noEmptyLoops c = true) :
     walk allCont c = (fullTraversal c, OK) := by
-  rw [walk_eq_spec allCont allCont_noFinished c hc]
+  rw [walk_eq_spec allCont c hc]
   simp only [walkSpec, fullTraversal, run_allCont, finalCode]
   simp [W.init]
 
@@ -46,11 +37,11 @@ theorem C14_all_continue_count (c : WCif) (hc : noEmptyLoops c = true) :
     (walk allCont c).1.length = (fullTraversal c).length := by
   rw [C14_all_continue c hc]
 
-/-- **Refinement** (partial: `NoFinished`): the callbacks delivered and the result are exactly those of the declarative
-    pruning semantics — the full traversal minus what the answers suppress. -/
-theorem C14_refines_spec_partial (p : Prog) (hp : NoFinished p) (c : WCif) (hc : noEmptyLoops c = true) :
+/-- **Refinement**: the callbacks delivered and the result are exactly those of the declarative pruning semantics —
+    the full traversal minus what the answers suppress. -/
+theorem C14_refines_spec (p : Prog) (c : WCif) (hc : noEmptyLoops c = true) :
     walk p c = walkSpec p c :=
-  walk_eq_spec p hp c hc
+  walk_eq_spec p c hc
 
 /-- **SKIP_CURRENT** at a start callback, for every element kind, in any state `w` (= after any history) and for any
     program: exactly the start callback is delivered — none for the descendants, none for the end — and the walk goes on
@@ -101,7 +92,7 @@ theorem C14_skip_siblings (p : Prog) (w : W) :
     ∧ (∀ l ls res, p w.n (.loopStart l.category l.names) = SKIP_SIBLINGS →
         walkLoopsFrom p (l :: ls) res w = (SKIP_SIBLINGS, C14_push w (.loopStart l.category l.names)))
     ∧ (∀ pk pks, p w.n (.pktStart pk) = SKIP_SIBLINGS →
-        walkPackets p (pk :: pks) w = (CONTINUE, C14_push w (.pktStart pk)))
+        walkPackets p (pk :: pks) w = (true, CONTINUE, C14_push w (.pktStart pk)))
     ∧ (∀ nm v is, p w.n (.item nm v) = SKIP_SIBLINGS →
         walkItems p ((nm, v) :: is) w = (some CONTINUE, C14_push w (.item nm v))) := by
   have hne : ¬ (SKIP_SIBLINGS = CONTINUE) := by decide
@@ -124,22 +115,22 @@ theorem C14_skip_siblings (p : Prog) (w : W) :
   · intro nm v is h
     simp [walkItems, call, h, hne, hne2, C14_push]
 
-/-- **END** (partial: `NoFinished`): a callback answering END is the last callback, and cif_walk returns CIF_OK. -/
-theorem C14_end (p : Prog) (hp : NoFinished p) (c : WCif) (hc : noEmptyLoops c = true)
+/-- **END**: a callback answering END is the last callback, and cif_walk returns CIF_OK. -/
+theorem C14_end (p : Prog) (c : WCif) (hc : noEmptyLoops c = true)
     (k : Nat) (h : k < (walk p c).1.length) (hk : p k (walk p c).1[k] = END) :
     k + 1 = (walk p c).1.length ∧ (walk p c).2 = OK := by
   have := (spec_stop p c).1
-  simp only [← walk_eq_spec p hp c hc] at this
+  simp only [← walk_eq_spec p c hc] at this
   have h2 := this k h (by rw [hk]; decide)
   simpa [hk] using h2
 
-/-- **Error codes propagate** (partial: `NoFinished`): a callback answering anything that is not a navigation code —
+/-- **Error codes propagate**: a callback answering anything that is not a navigation code —
     in particular any positive code — is the last callback, and cif_walk returns that code unchanged. -/
-theorem C14_error_propagates_partial (p : Prog) (hp : NoFinished p) (c : WCif) (hc : noEmptyLoops c = true)
+theorem C14_error_propagates (p : Prog) (c : WCif) (hc : noEmptyLoops c = true)
     (k : Nat) (h : k < (walk p c).1.length) (hk : p k (walk p c).1[k] > 0) :
     k + 1 = (walk p c).1.length ∧ (walk p c).2 = p k (walk p c).1[k] := by
   have := (spec_stop p c).1
-  simp only [← walk_eq_spec p hp c hc] at this
+  simp only [← walk_eq_spec p c hc] at this
   have hs : isStop (p k (walk p c).1[k]) := by
     unfold isStop CONTINUE SKIP_CURRENT SKIP_SIBLINGS
     omega
@@ -152,11 +143,8 @@ theorem C14_error_propagates_partial (p : Prog) (hp : NoFinished p) (c : WCif) (
 theorem C14_returns_ok_on_directives (p : Prog) (c : WCif) (hc : noEmptyLoops c = true)
     (hd : ∀ k e, p k e = CONTINUE ∨ p k e = SKIP_CURRENT ∨ p k e = SKIP_SIBLINGS ∨ p k e = END) :
     (walk p c).2 = OK := by
-  have hp : NoFinished p := by
-    intro k e
-    rcases hd k e with h | h | h | h <;> rw [h] <;> decide
   have hs := spec_stop p c
-  simp only [← walk_eq_spec p hp c hc] at hs
+  simp only [← walk_eq_spec p c hc] at hs
   by_cases hex : ∃ (k : Nat) (h : k < (walk p c).1.length), isStop (p k (walk p c).1[k])
   · obtain ⟨k, h, hst⟩ := hex
     have h2 := (hs.1 k h hst).2
@@ -178,26 +166,20 @@ theorem C14_empty_loop (p : Prog) (w : W) (l : WLoop) (hl : l.packets = [])
     walkLoop p l w = (EMPTY_LOOP, C14_push w (.loopStart l.category l.names)) := by
   simp [walkLoop, call, h, hl, C14_push]
 
--- ---- the counterexample behind the `_partial`s (open finding F32) ------------------------------------------------
+-- ---- the repaired defect F32, as a statement about the pinned variant ---------------------------------------------
 
-/-- one block, one loop `_a` with two packets -/
-def C14_cexCif : WCif := [.mk (a!"b") [] [{ category := none, names := [(a!"_a")], packets := [[((a!"_a"), .unk)], [((a!"_a"), .na)]] }]]
-/-- answers 1 (= CIF_FINISHED) at invocation 3, the first packet_start -/
-def C14_cexProg : Prog := fun k _ => if k = 3 then 1 else 0
+/-- a loop `_a` with two packets -/
+def C14_cexLoop : WLoop := { category := none, names := [(a!"_a")], packets := [[((a!"_a"), .unk)], [((a!"_a"), .na)]] }
+/-- answers 1 (= CIF_FINISHED) at invocation 1, the first packet_start -/
+def C14_cexProg : Prog := fun k _ => if k = 1 then 1 else 0
 
-/-- the handler's positive code 1 at the first packet_start does not stop the walk: loop_end, block_end and cif_end are
-    still delivered (7 callbacks instead of 4) and cif_walk returns CIF_OK instead of 1 -/
-theorem C14_cex_finished :
-    (walk C14_cexProg C14_cexCif).1.length = 7 ∧ (walk C14_cexProg C14_cexCif).2 = 0
-      ∧ (walkSpec C14_cexProg C14_cexCif).1.length = 4 ∧ (walkSpec C14_cexProg C14_cexCif).2 = 1 := by
+/-- before fix d1128e2: the handler's positive code 1 at the first packet_start did not stop the walk of the loop —
+    loop_end was still delivered (3 callbacks) and the loop reported CONTINUE; the repaired walk_loop stops after 2
+    callbacks and returns the code 1 -/
+theorem C14_cex_finished_pinned :
+    (walkLoopPinned C14_cexProg C14_cexLoop W.init).2.n = 3 ∧ (walkLoopPinned C14_cexProg C14_cexLoop W.init).1 = 0
+      ∧ (walkLoop C14_cexProg C14_cexLoop W.init).2.n = 2 ∧ (walkLoop C14_cexProg C14_cexLoop W.init).1 = 1 := by
   decide +kernel
-
-theorem C14_refines_spec_full_is_false : ¬ C14_refines_spec_full := by
-  intro h
-  have := h C14_cexProg C14_cexCif (by decide +kernel)
-  have h2 := C14_cex_finished
-  rw [this] at h2
-  omega
 
 -- ---- non-vacuity ----------------------------------------------------------------------------------------------------
 
@@ -210,14 +192,14 @@ def C14_demo : WCif :=
 example : noEmptyLoops C14_demo = true := by decide +kernel
 example : (fullTraversal C14_demo).length = 23 := by decide +kernel
 example : (walk allCont C14_demo).1.length = 23 ∧ (walk allCont C14_demo).2 = 0 := by decide +kernel
--- a program with a directive at invocation 3 (frame f's loop_start) that satisfies NoFinished; the walk is shorter
-example : NoFinished (fun k _ => if k = 3 then SKIP_SIBLINGS else 0) := by
-  intro k e; by_cases h : k = 3 <;> simp [h, SKIP_SIBLINGS, FINISHED]
+-- a program with a directive at invocation 3 (frame f's loop_start): the walk is shorter
 example : (walk (fun k _ => if k = 3 then SKIP_SIBLINGS else 0) C14_demo).1.length = 18 := by decide +kernel
 -- END at invocation 5 is the last callback (6 delivered), result OK; a positive code is returned
 example : (walk (fun k _ => if k = 5 then END else 0) C14_demo).1.length = 6
     ∧ (walk (fun k _ => if k = 5 then END else 0) C14_demo).2 = 0 := by decide +kernel
 example : (walk (fun k _ => if k = 5 then 7 else 0) C14_demo).2 = 7 := by decide +kernel
+-- the code 1 (CIF_FINISHED) from a packet-level callback is returned like any other (invocation 4 = packet_start in frame f)
+example : (walk (fun k _ => if k = 4 then 1 else 0) C14_demo).2 = 1 ∧ (walk (fun k _ => if k = 4 then 1 else 0) C14_demo).1.length = 5 := by decide +kernel
 -- a packet-less loop: CIF_EMPTY_LOOP
 example : (walk allCont [.mk (a!"b") [] [{ category := none, names := [(a!"_a")], packets := [] }]]).2 = 36 := by decide +kernel
 
